@@ -338,6 +338,7 @@ func (p *c02) RunCase(i int) *core.CaseResult {
 		return r
 	}
 	r := &core.CaseResult{}
+	defer withUsage(r, "C02")()
 	c := &p.cases[i]
 	sql := p.sqlOf(c)
 	if c.kind == 0 {
